@@ -9,7 +9,7 @@ import (
 func init() { register("C13", propC13) }
 
 func propC13(c *Ctx) {
-	c.Explanation = "That every request is answered while fewer than ten are pending depends on goroutine scheduling, and byte equality of payloads at run time is behavioural; both are NOT decided. Decided are the structural conditions: (I1) the IPv4 echo queue has capacity exactly 10 and one replier goroutine per endpoint; the enqueue is a non-blocking select (the NIC goroutine never blocks on it) and the drop branch releases the cloned route; what is queued is a clone of the inbound route and a COPY (ToView) of the whole datagram body after exactly the 4 fixed ICMP bytes - identifier, sequence number and all payload chunks, not just the first view, and not an alias of the receive buffer; this happens only for type == echo with at least 6 bytes in the first view. (I2) the replier answers each dequeued request exactly once with code 0 and releases the route. (I3) sendPing4: type = echo reply, the first bytes of the body (identifier) go to header bytes 4.., the rest is the payload, checksum = complement of the sum over the header (checksum field still zero in the freshly prepended buffer) continued over the payload, one WritePacket on the given route with protocol ICMPv4. (I4) ICMPv6: the 8-byte echo header is copied from the request, the type is then set to echo reply, the payload is the request's body after those 8 bytes, checksum over source/destination of the inbound route, length, next-header 58, payload and the header with the checksum field zeroed; sent on the inbound route. The inbound route is built with local = the packet's destination (the pinged address) and remote = its source, and Clone keeps both, so the reply goes to the requester from the pinged address. (I5) echo-reply type values are written nowhere else in the module, sendPing4 is called only by the replier and the queue is fed only by handleICMP: no reply without a request. That requests for foreign addresses never reach handleICMP is C09. (I6) the IPv4 reassembly key covers id, protocol and every byte of both addresses (shared with C08/F4): a fragmented request is reassembled from its own requester's fragments only. (I7) the masked address match behind 'is this address served here' (shared with C09/D5). (I8) the IPv4 inbound path (shared with C08/F4). NOT decided: scheduling (answered while < 10 pending), at-most-once under link-level duplication, fragmentation of large replies."
+	c.Explanation = "That every request is answered while fewer than ten are pending depends on goroutine scheduling, and byte equality of payloads at run time is behavioural; both are NOT decided. Decided are the structural conditions: (I1) the IPv4 echo queue has capacity exactly 10 and one replier goroutine per endpoint; the enqueue is a non-blocking select (the NIC goroutine never blocks on it) and the drop branch releases the cloned route; what is queued is a clone of the inbound route and a COPY (ToView) of the whole datagram body after exactly the 4 fixed ICMP bytes - identifier, sequence number and all payload chunks, not just the first view, and not an alias of the receive buffer; this happens only for type == echo with at least 6 bytes in the first view. (I2) the replier answers each dequeued request exactly once with code 0 and releases the route. (I3) sendPing4: type = echo reply, the first bytes of the body (identifier) go to header bytes 4.., the rest is the payload, checksum = complement of the sum over the header (checksum field still zero in the freshly prepended buffer) continued over the payload, one WritePacket on the given route with protocol ICMPv4. (I4) ICMPv6: the 8-byte echo header is copied from the request, the type is then set to echo reply, the payload is the request's body after those 8 bytes, checksum over source/destination of the inbound route, length, next-header 58, payload and the header with the checksum field zeroed; sent on the inbound route. The inbound route is built with local = the packet's destination (the pinged address) and remote = its source, and Clone keeps both, so the reply goes to the requester from the pinged address. (I5) echo-reply type values are written nowhere else in the module, sendPing4 is called only by the replier and the queue is fed only by handleICMP: no reply without a request. That requests for foreign addresses never reach handleICMP is C09. (I6) the IPv4 reassembly key covers id, protocol and every byte of both addresses (shared with C08/F4): a fragmented request is reassembled from its own requester's fragments only. (I7) the masked address match behind 'is this address served here' (shared with C09/D5). (I8) the IPv4 inbound path (shared with C08/F4). (I5) also holds the exact guards of the ping socket's echo-request-only gate; (I9) ICMP type/code/checksum accessors at the RFC 792/4443 bits (shared with C15/B1). (I10) protocol 1 of a valid IPv4 datagram is handed to handleICMP with the payload view. (I11) the echo payload ends where the IP length says (shared with C16/V2); (I12) fragmented echo requests are stored through container/heap and reassembled in offset order (shared with C08/F2). NOT decided: scheduling (answered while < 10 pending), at-most-once under link-level duplication, fragmentation of large replies."
 
 	i1 := c.Rule("I1", "K12 capacity + K11 non-blocking + K5 provenance", "IPv4 echo queue", 9)
 	if fn := c.Fn(i1, "(*ipv4.protocol).NewEndpoint"); fn != nil {
@@ -26,9 +26,10 @@ func propC13(c *Ctx) {
 			{Kind: "call", Target: "(*buffer.VectorisedView).TrimFront", Args: []string{"&new(buffer.VectorisedView)", "4"}, Guards: echo, Exact: true, N: 1, Why: "exactly the 4 fixed ICMP bytes are dropped; identifier/sequence stay with the body"},
 			{Kind: "store", Target: "ipv4.echoRequest.r", Args: []string{"new(ipv4.echoRequest)", "(*stack.Route).Clone($1)"}, Guards: echo, Exact: true, N: 1, Why: "the reply route is a clone of the inbound route"},
 			{Kind: "store", Target: "ipv4.echoRequest.v", Args: []string{"new(ipv4.echoRequest)", "buffer.VectorisedView.ToView(new(buffer.VectorisedView)@2)"}, Guards: echo, Exact: true, N: 1, Why: "the whole remaining datagram (all chunks) copied into a fresh view, after the trim"},
-			{Kind: "select", Args: []string{"blocking=false", "send $0.echoRequests <- new(ipv4.echoRequest)@2"}, Guards: echo, Exact: true, N: 1, Why: "non-blocking enqueue of exactly that request"},
+			{Kind: "select", Args: []string{"blocking=false", "send $0.echoRequests <- new(ipv4.echoRequest)@*"}, Guards: echo, Exact: true, N: 1, Why: "non-blocking enqueue of exactly that request"},
 			{Kind: "call", Target: "(*stack.Route).Release", Args: []string{"&new(ipv4.echoRequest).r"}, Guards: append([]string{"!(0 == select#0)"}, echo...), Exact: true, N: 1, Why: "queue full: the clone is released, nothing else happens"},
 		})
+		c.Ordered(i1, fn, []string{"route clone stored in the request", "request enqueued"}, []func(Site) bool{func(s Site) bool { return s.Kind == "store" && s.Target == "ipv4.echoRequest.r" }, func(s Site) bool { return s.Kind == "select" }})
 		// no other send on the queue anywhere
 		n := 0
 		for _, f := range c.ReviewedFuncs() {
@@ -52,21 +53,14 @@ func propC13(c *Ctx) {
 		})
 	}
 
+	i9 := c.Rule("I9", "K9 bitprov (shared with C15/B1)", "ICMPv4/ICMPv6 type, code and checksum accessors read and write exactly the RFC 792/4443 bits", 12)
+	c.fieldAccessorLayouts(i9, &bitprov{p: c.P}, func(f fieldLayout) bool { return f.Typ == "ICMPv4" || f.Typ == "ICMPv6" })
+
+	icmpDispatchRule(c, c.Rule("I10", "K7 site table", "protocol 1 of a valid IPv4 datagram is handed to handleICMP with the payload view", 1))
+	vvCapLengthRule(c, c.Rule("I11", "K7 exact-guard site table (shared with C16/V2)", "the echo payload ends where the IP length says", 4))
+	reassemblerProcessRule(c, c.Rule("I12", "K9 path table + site table (shared with C08/F2)", "fragmented echo requests are reassembled in offset order whatever the arrival order", 6))
 	i3 := c.Rule("I3", "K5 provenance", "IPv4 echo reply construction", 8)
-	if fn := c.Fn(i3, "ipv4.sendPing4"); fn != nil {
-		out := "(*buffer.Prependable).Prepend(&new(buffer.Prependable), 6)"
-		c.CheckSites(i3, fn, []SiteSpec{
-			{Kind: "call", Target: "(*buffer.Prependable).Prepend", Args: []string{"&new(buffer.Prependable)", "6"}, Guards: []string{}, Exact: true, N: 1, Why: "6-byte echo header in a fresh (zeroed) buffer"},
-			{Kind: "call", Target: "header.ICMPv4.SetType", Args: []string{out, "0"}, Guards: []string{}, Exact: true, N: 1, Why: "type = echo reply"},
-			{Kind: "call", Target: "header.ICMPv4.SetCode", Args: []string{out, "$1"}, Guards: []string{}, Exact: true, N: 1, Why: "code from the caller (0)"},
-			{Kind: "call", Target: "builtin:copy", Args: []string{out + "[4:]", "$2"}, Guards: []string{}, Exact: true, N: 1, Why: "identifier: the first 2 body bytes fill header bytes 4..6"},
-			{Kind: "call", Target: "header.Checksum", Args: []string{"$2[2:]", "0"}, Guards: []string{}, Exact: true, N: 1, Why: "sum over the payload (body after the identifier: sequence number and data)"},
-			{Kind: "call", Target: "header.Checksum", Args: []string{out, "header.Checksum($2[2:], 0)"}, Guards: []string{}, Exact: true, N: 1, Why: "continued over the header"},
-			{Kind: "call", Target: "header.ICMPv4.SetChecksum", Args: []string{out, "^header.Checksum(" + out + ", header.Checksum($2[2:], 0))"}, Guards: []string{}, Exact: true, N: 1, Why: "checksum = one's complement of that sum"},
-			{Kind: "call", Target: "(*stack.Route).WritePacket", Args: []string{"$0", "new(buffer.Prependable)@2", "buffer.View.ToVectorisedView($2[2:])", "1", "(*stack.Route).DefaultTTL($0)"}, Guards: []string{}, Exact: true, N: 1, Why: "one packet: header + the same payload slice, ICMPv4, on the given route"},
-		})
-		c.Ordered(i3, fn, []string{"type", "identifier copy", "checksum", "write"}, []func(Site) bool{isCall("header.ICMPv4.SetType"), isCall("builtin:copy"), isCall("header.ICMPv4.SetChecksum"), isCall("(*stack.Route).WritePacket")})
-	}
+	sendPing4Rule(c, i3)
 
 	i4 := c.Rule("I4", "K5 provenance", "ICMPv6 echo reply and addressing of the inbound route", 9)
 	if fn := c.Fn(i4, "(*ipv6.endpoint).handleICMP"); fn != nil {
@@ -116,6 +110,18 @@ func propC13(c *Ctx) {
 	ipv4InboundRule(c, i8)
 
 	i5 := c.Rule("I5", "K3 confinement", "no reply without a request", 3)
+	for _, t := range []struct{ fn, pre, typ, code, minLen string }{
+		{"ping.sendPing4", "header.ICMPv4", "8", "6", "6"},
+		{"ping.sendPing6", "header.ICMPv6", "128", "8", "8"},
+	} {
+		if fn := c.Fn(i5, t.fn); fn != nil {
+			hdr := "(*buffer.Prependable).Prepend(&new(buffer.Prependable), " + t.minLen + ")"
+			gate := []string{"!(builtin:len($2) < " + t.minLen + ")", "(0 == " + t.pre + ".Code(" + hdr + "))", "(" + t.typ + " == " + t.pre + ".Type(" + hdr + "))"}
+			c.CheckSitesPresent(i5, fn, []SiteSpec{
+				{Kind: "call", Target: "(*stack.Route).WritePacket", Args: nil, Guards: gate, Exact: true, N: 1, Why: "a ping socket puts a message on the wire only if its type is echo REQUEST and its code 0: applications cannot make the stack emit echo replies"},
+			})
+		}
+	}
 	for _, v := range []struct{ setter, val, allowed string }{
 		{"header.ICMPv4.SetType", "0", "ipv4.sendPing4"},
 		{"header.ICMPv6.SetType", "129", "(*ipv6.endpoint).handleICMP"},
@@ -163,14 +169,36 @@ func echoRouteRefRule(c *Ctx, rule string) {
 		echo := []string{"!(builtin:len(" + in + ") < 4)", "!(builtin:len(" + in + ") < 6)", "(8 == header.ICMPv4.Type(" + in + "))"}
 		c.CheckSitesPresent(rule, fn, []SiteSpec{
 			{Kind: "store", Target: "ipv4.echoRequest.r", Args: []string{"new(ipv4.echoRequest)", "(*stack.Route).Clone($1)"}, Guards: echo, Exact: true, N: 1, Why: "the reply route is a clone of the inbound route (one more reference)"},
-			{Kind: "select", Args: []string{"blocking=false", "send $0.echoRequests <- new(ipv4.echoRequest)@2"}, Guards: echo, Exact: true, N: 1, Why: "non-blocking enqueue of exactly that request"},
+			{Kind: "select", Args: []string{"blocking=false", "send $0.echoRequests <- new(ipv4.echoRequest)@*"}, Guards: echo, Exact: true, N: 1, Why: "non-blocking enqueue of exactly that request"},
 			{Kind: "call", Target: "(*stack.Route).Release", Args: []string{"&new(ipv4.echoRequest).r"}, Guards: append([]string{"!(0 == select#0)"}, echo...), Exact: true, N: 1, Why: "queue full: the clone is released"},
 		})
+		c.Ordered(rule, fn, []string{"route clone stored in the request", "request enqueued"}, []func(Site) bool{func(s Site) bool { return s.Kind == "store" && s.Target == "ipv4.echoRequest.r" }, func(s Site) bool { return s.Kind == "select" }})
 	}
 	if fn := c.Fn(rule, "(*ipv4.endpoint).echoReplier"); fn != nil {
 		got := "<-$0.echoRequests#1"
 		c.CheckSitesPresent(rule, fn, []SiteSpec{
 			{Kind: "call", Target: "(*stack.Route).Release", Args: []string{"&new(ipv4.echoRequest).r"}, Guards: []string{got}, Exact: true, N: 1, Why: "the replier releases the route of every request it dequeued, whatever the send returned"},
 		})
+	}
+}
+
+// sendPing4Rule: the complete construction table of the IPv4 echo reply
+// (type, code, identifier copy, checksum = complement of the sum over the
+// 6 built bytes continued over the payload, one route write). Shared by
+// C13/I3 and C06/E8.
+func sendPing4Rule(c *Ctx, i3 string) {
+	if fn := c.Fn(i3, "ipv4.sendPing4"); fn != nil {
+		out := "(*buffer.Prependable).Prepend(&new(buffer.Prependable), 6)"
+		c.CheckSites(i3, fn, []SiteSpec{
+			{Kind: "call", Target: "(*buffer.Prependable).Prepend", Args: []string{"&new(buffer.Prependable)", "6"}, Guards: []string{}, Exact: true, N: 1, Why: "6-byte echo header in a fresh (zeroed) buffer"},
+			{Kind: "call", Target: "header.ICMPv4.SetType", Args: []string{out, "0"}, Guards: []string{}, Exact: true, N: 1, Why: "type = echo reply"},
+			{Kind: "call", Target: "header.ICMPv4.SetCode", Args: []string{out, "$1"}, Guards: []string{}, Exact: true, N: 1, Why: "code from the caller (0)"},
+			{Kind: "call", Target: "builtin:copy", Args: []string{out + "[4:]", "$2"}, Guards: []string{}, Exact: true, N: 1, Why: "identifier: the first 2 body bytes fill header bytes 4..6"},
+			{Kind: "call", Target: "header.Checksum", Args: []string{"$2[2:]", "0"}, Guards: []string{}, Exact: true, N: 1, Why: "sum over the payload (body after the identifier: sequence number and data)"},
+			{Kind: "call", Target: "header.Checksum", Args: []string{out, "header.Checksum($2[2:], 0)"}, Guards: []string{}, Exact: true, N: 1, Why: "continued over the header"},
+			{Kind: "call", Target: "header.ICMPv4.SetChecksum", Args: []string{out, "^header.Checksum(" + out + ", header.Checksum($2[2:], 0))"}, Guards: []string{}, Exact: true, N: 1, Why: "checksum = one's complement of that sum"},
+			{Kind: "call", Target: "(*stack.Route).WritePacket", Args: []string{"$0", "new(buffer.Prependable)@2", "buffer.View.ToVectorisedView($2[2:])", "1", "(*stack.Route).DefaultTTL($0)"}, Guards: []string{}, Exact: true, N: 1, Why: "one packet: header + the same payload slice, ICMPv4, on the given route"},
+		})
+		c.Ordered(i3, fn, []string{"type", "identifier copy", "checksum", "write"}, []func(Site) bool{isCall("header.ICMPv4.SetType"), isCall("builtin:copy"), isCall("header.ICMPv4.SetChecksum"), isCall("(*stack.Route).WritePacket")})
 	}
 }
